@@ -99,11 +99,10 @@ TNote  == /\ More /\ E.e \in {"note", "open", "end"}
 Pos(x) == CHOOSE j \in 1..Len(accepted) : accepted[j] = x
 TRx ==
     /\ More /\ E.e = "rx"
-    /\ Len(E.xs) > 0
     /\ \A i \in 1..Len(E.xs) : E.xs[i] \in Range(accepted)
     /\ LET ps == [i \in 1..Len(E.xs) |-> Pos(E.xs[i])]
-           last == ps[Len(E.xs)] IN
-         /\ ps[1] > ptr
+           last == IF Len(E.xs) = 0 THEN ptr ELSE ps[Len(E.xs)] IN      \* (an empty batch would be pointless, not wrong)
+         /\ Len(E.xs) > 0 => ps[1] > ptr
          /\ \A i \in 1..(Len(E.xs) - 1) : ps[i] < ps[i + 1]
          /\ last <= taken
          /\ \A j \in (ptr + 1)..last : (j \in Range(ps)) \/ j <= lu
